@@ -13,28 +13,47 @@ fn bit(w: &[u64; 4], i: usize) -> bool {
     (w[i / 64] >> (i % 64)) & 1 == 1
 }
 
-/// largest j < i with bit j set
-fn spec_next_set_below(w: &[u64; 4], i: usize) -> Option<usize> {
-    let mut j = i;
-    while j > 0 {
-        j -= 1;
-        if bit(w, j) {
-            return Some(j);
-        }
+/// mask of the bits of word `k` whose global index lies in [lo, hi)
+fn word_mask(k: usize, lo: usize, hi: usize) -> u64 {
+    let base = 64 * k;
+    let l = if lo > base { lo - base } else { 0 };
+    let h = if hi > base { hi - base } else { 0 };
+    let l = if l > 64 { 64 } else { l };
+    let h = if h > 64 { 64 } else { h };
+    if h <= l {
+        return 0;
     }
-    None
+    let width = h - l;
+    let ones: u64 = if width == 64 { u64::MAX } else { (1u64 << width) - 1 };
+    ones << l
 }
 
-/// smallest j >= from with bit j clear (j < 256)
-fn spec_next_clear_from(w: &[u64; 4], from: usize) -> Option<usize> {
-    let mut j = from;
-    while j < NUM_BUCKETS {
-        if !bit(w, j) {
-            return Some(j);
-        }
-        j += 1;
+/// some bit with index in [lo, hi) is set  (loop-free: four word masks)
+fn any_set(w: &[u64; 4], lo: usize, hi: usize) -> bool {
+    (w[0] & word_mask(0, lo, hi)) != 0
+        || (w[1] & word_mask(1, lo, hi)) != 0
+        || (w[2] & word_mask(2, lo, hi)) != 0
+        || (w[3] & word_mask(3, lo, hi)) != 0
+}
+
+fn any_clear(w: &[u64; 4], lo: usize, hi: usize) -> bool {
+    any_set(&[!w[0], !w[1], !w[2], !w[3]], lo, hi)
+}
+
+/// r is the largest j < i with bit j set (None if there is none)
+fn is_next_set_below(w: &[u64; 4], i: usize, r: Option<usize>) -> bool {
+    match r {
+        Some(j) => j < i && bit(w, j) && !any_set(w, j + 1, i),
+        None => !any_set(w, 0, i),
     }
-    None
+}
+
+/// r is the smallest j >= from (j < 256) with bit j clear (None if there is none)
+fn is_next_clear_from(w: &[u64; 4], from: usize, r: Option<usize>) -> bool {
+    match r {
+        Some(j) => j >= from && j < NUM_BUCKETS && !bit(w, j) && !any_clear(w, from, j),
+        None => !any_clear(w, from, NUM_BUCKETS),
+    }
 }
 
 fn state_code(s: &ClosestBucketsIterState) -> (u8, usize) {
@@ -82,21 +101,17 @@ fn step_zoom_in() {
     kani::assume(if d_zero { i == 0 } else { bit(&w, i) });
     let mut it = ClosestBucketsIter { distance: d, state: ClosestBucketsIterState::ZoomIn(BucketIndex(i)) };
     let r = it.next().map(|b| b.get());
-    match spec_next_set_below(&w, i) {
-        Some(j) => {
-            assert!(r == Some(j));
-            assert!(state_code(&it.state) == (1, j));
-        }
-        None => {
-            // zoom-in exhausted: canonical successor is the first clear bit, skipping
-            // bucket 0 if it was already yielded (d = 0 start, or bit 0 set)
-            let from = if d_zero { 1 } else { 0 };
-            let expect = spec_next_clear_from(&w, from);
-            assert!(r == expect);
-            match expect {
-                Some(j) => assert!(state_code(&it.state) == (2, j)),
-                None => assert!(state_code(&it.state).0 == 3),
-            }
+    if any_set(&w, 0, i) {
+        assert!(r.is_some() && is_next_set_below(&w, i, r));
+        assert!(state_code(&it.state) == (1, r.unwrap()));
+    } else {
+        // zoom-in exhausted: canonical successor is the first clear bit, skipping
+        // bucket 0 if it was already yielded (d = 0 start, or bit 0 set)
+        let from = if d_zero { 1 } else { 0 };
+        assert!(is_next_clear_from(&w, from, r));
+        match r {
+            Some(j) => assert!(state_code(&it.state) == (2, j)),
+            None => assert!(state_code(&it.state).0 == 3),
         }
     }
 }
@@ -112,11 +127,31 @@ fn step_zoom_out() {
     kani::assume(!bit(&w, i));
     let mut it = ClosestBucketsIter { distance: d, state: ClosestBucketsIterState::ZoomOut(BucketIndex(i)) };
     let r = it.next().map(|b| b.get());
-    let expect = spec_next_clear_from(&w, i + 1);
-    assert!(r == expect);
-    match expect {
+    assert!(is_next_clear_from(&w, i + 1, r));
+    match r {
         Some(j) => assert!(state_code(&it.state) == (2, j)),
         None => assert!(state_code(&it.state).0 == 3),
+    }
+}
+
+/// the loop-free mask predicates agree with the obvious bit-by-bit definition
+#[kani::proof]
+fn spec_masks_are_sound() {
+    let w: [u64; 4] = kani::any();
+    let lo: usize = kani::any();
+    let hi: usize = kani::any();
+    kani::assume(lo <= 256 && hi <= 256);
+    let j: usize = kani::any();
+    kani::assume(j < 256);
+    // any bit j in [lo,hi) that is set is seen by any_set; and any_set is witnessed
+    if lo <= j && j < hi && bit(&w, j) {
+        assert!(any_set(&w, lo, hi));
+    }
+    if !(lo < hi) {
+        assert!(!any_set(&w, lo, hi));
+    }
+    if lo <= j && j < hi && !any_set(&w, lo, hi) {
+        assert!(!bit(&w, j));
     }
 }
 
@@ -187,4 +222,27 @@ fn canary_zoom_out_never_ends() {
     kani::assume(!bit(&w, i));
     let mut it = ClosestBucketsIter { distance: d, state: ClosestBucketsIterState::ZoomOut(BucketIndex(i)) };
     assert!(it.next().is_some());
+}
+
+/// Probe: zoom-out with the index made concrete per branch (case split inside the harness).
+#[kani::proof]
+#[kani::unwind(258)]
+fn probe_zoom_out_split() {
+    let (w, d) = any_distance();
+    let i: usize = kani::any();
+    kani::assume(i < NUM_BUCKETS);
+    kani::assume(!bit(&w, i));
+    let mut ci = 0usize;
+    while ci < NUM_BUCKETS {
+        if i == ci {
+            let mut it = ClosestBucketsIter { distance: d, state: ClosestBucketsIterState::ZoomOut(BucketIndex(ci)) };
+            let r = it.next().map(|b| b.get());
+            assert!(is_next_clear_from(&w, ci + 1, r));
+            match r {
+                Some(j) => assert!(state_code(&it.state) == (2, j)),
+                None => assert!(state_code(&it.state).0 == 3),
+            }
+        }
+        ci += 1;
+    }
 }
